@@ -38,6 +38,9 @@ type nodeMonitor struct {
 	contents map[string]map[string]bool
 	signLife map[string][]int // process lifetime of each distinct content, in signing order
 	life     int
+	// partial: the kernel is at rest between two passes of its controlled select but inputs may still be pending:
+	// only the clauses that do not depend on every input having been consumed are evaluated.
+	partial bool
 
 	finSaved   map[uint64]bool
 	finReq     map[uint64]string // height -> hash requested
@@ -399,7 +402,7 @@ func (m *nodeMonitor) quiescent() {
 		rm := m.rd(t.h, t.r)
 		switch t.kind {
 		case "proposal":
-			if rm.prevoteSigned || rm.prevoteAnswer != nil || rm.chooseCalls > 0 {
+			if !m.partial && (rm.prevoteSigned || rm.prevoteAnswer != nil || rm.chooseCalls > 0) {
 				o.violate("C12", "proposal-timer-armed-after-prevote", fmt.Sprintf("proposal timer of %d/%d still armed although the prevote was already chosen or requested", t.h, t.r))
 			}
 		case "commit-wait":
@@ -451,9 +454,20 @@ func (m *nodeMonitor) quiescent() {
 				armed = true
 			}
 		}
+		if m.partial {
+			// Between two passes an elapsed signal may be waiting to be consumed: that timer still is the armed one.
+			for _, t := range n.timers {
+				if t.kind == "proposal" && t.h == h && t.r == r && t.fired && !t.cancelled {
+					armed = true
+				}
+			}
+		}
 		if !armed {
 			o.violate("C12", "no-proposal-timer-while-awaiting-proposal", fmt.Sprintf("state machine waits for a proposal in %d/%d (no vote chosen, prevote presence %d, precommit presence %d of %d) without an armed proposal timer", h, r, pvTotal, pcTotal, total))
 		}
+	}
+	if m.partial {
+		return
 	}
 	// The round is undecided and a precommit decision is due => DecidePrecommit was asked.
 	decided := pcSingle >= majority(total) || pcTotal == total
